@@ -370,12 +370,7 @@ theorem noRotS_node (op : Op) (args : List Term) (p : Payload) (h1 : op ≠ .bvR
       apply noRotS_storeChain sp hsp _ _ (noRotS_arrTySexp _ _) (hargs d (by simp))
       intro kv hkv
       obtain ⟨e, he, rfl⟩ := List.mem_map.1 hkv
-      have hin : e ∈ (pairsOf rest).zip (pairsOf (rest.map toS)) := by
-        cases srt
-        · exact he
-        · exact mem_sortBy _ _ _ he
-      have h2 : e.2 ∈ pairsOf (rest.map toS) := (List.of_mem_zip (a := e.1) (b := e.2) hin).2
-      obtain ⟨m1, m2⟩ := mem_pairsOf _ _ h2
+      obtain ⟨m1, m2⟩ := mem_avEnts srt rest toS e he
       obtain ⟨a1, ha1, e1⟩ := List.mem_map.1 m1
       obtain ⟨a2, ha2, e2⟩ := List.mem_map.1 m2
       rw [← e1, ← e2]
